@@ -32,6 +32,62 @@ def twice_oracle(ctx, case, isa):
         seen[key] = [m for m, _ in members]
 
 
+_FRONTENDS = {}
+
+
+def frontend_for(ctx, arch=None, arch_yaml=None):
+    """osaca.frontend.Frontend for a shipped model (one per run) or a synthetic arch file (written to scratch)"""
+    import hashlib
+    import os
+    from osaca.frontend import Frontend
+    key = arch or hashlib.sha1(arch_yaml.encode()).hexdigest()
+    if key not in _FRONTENDS:
+        if arch:
+            import models
+            path = models.yaml_path(arch)
+        else:
+            d = os.path.join(ctx.scratch, "fe")
+            os.makedirs(d, exist_ok=True)
+            path = os.path.join(d, key + ".yml")
+            with open(path, "w") as f:
+                f.write(arch_yaml)
+        _FRONTENDS[key] = Frontend(path_to_yaml=path)
+    return _FRONTENDS[key]
+
+
+def report_oracle(ctx, kernel, dg, rep, arch=None, arch_yaml=None):
+    """The REPORT: the LCD column marks the members of ONE loop-carried dependency of maximal latency, every marked cell shows that
+    member's latency (also a latency of 0), and the LCD figure of the summary row is that maximum (0 without a dependency)."""
+    import c13_lib
+    lcd = dg.get_loopcarried_dependencies()
+    try:
+        fe = frontend_for(ctx, arch, arch_yaml)
+        txt = fe.full_analysis(kernel, dg, ignore_unknown=True, arch_warning=False, length_warning=False, lcd_warning=False, verbose=False)
+    except Exception as e:  # noqa
+        ctx.violation("report-raises", "Frontend.full_analysis raises %r" % e, rep)
+        return False
+    try:
+        t = c13_lib.tokenise(txt)
+    except c13_lib.Layout as e:
+        ctx.coverage.setdefault("report_layout_not_recognised", []).append(str(e)[:120])
+        return False
+    ctx.count()
+    marked = {r["num"]: float(r["lcd"]) for r in t["rows"] if r["lcd"] != ""}
+    entries = [({int(i.line_number): float(l) for i, l in v["dependencies"]}, float(v["latency"])) for v in lcd.values()]
+    mx = max([l for _, l in entries], default=0.0)
+    cands = [m for m, l in entries if l == mx]
+    zero_edge = any(w == 0.0 for m in cands for w in m.values())
+    ctx.coverage["report_lcd_column_checked"] = ctx.coverage.get("report_lcd_column_checked", 0) + 1
+    ctx.coverage["report_longest_cycle_with_zero_latency_member"] = ctx.coverage.get("report_longest_cycle_with_zero_latency_member", 0) + zero_edge
+    if (cands and marked not in cands) or (not cands and marked):
+        ctx.violation("lcd-column-not-a-longest-cycle", "the LCD column of the report marks %s; loop-carried dependencies of maximal latency %s: %s"
+                      % (sorted(marked.items()), mx, [sorted(m.items()) for m in cands[:3]]), rep)
+    if t["summary"] is not None and abs(float(t["summary"]["lcd"]) - mx) > 0.051:
+        ctx.violation("lcd-figure-not-the-maximum", "the summary row shows LCD %s, the longest loop-carried dependency takes %s"
+                      % (t["summary"]["lcd"], mx), rep)
+    return zero_edge
+
+
 def record(ctx, recs, kernel, dg, flagdeps):
     """one more run of the real check_for_loopcarried_dep, networkx wrapped, for the translator cross-check"""
     if len(kernel) >= type(dg).INSTRUCTION_THRESHOLD:
@@ -51,6 +107,7 @@ def run(ctx):
     recs = []
     cases = []
     nref = 0
+    nrep = 0
     for case, kernel, dg, isa, gl, pipe in c04_family.guarded_synthetic(ctx, ctx.n(120, 2500), key="lcd-raises", maxlen=10, regs_only=True):
         ctx.count()
         if case["lcd"]:
@@ -58,6 +115,11 @@ def run(ctx):
         if depcheck.lcd_oracle(ctx, case, isa, gl):
             nref += 1
         twice_oracle(ctx, case, isa)
+        zero_on_top = case["lcd"] and any(w == 0.0 for s_, m in case["lcd"] if s_ == max(x for x, _ in case["lcd"]) for _, w in m)
+        if zero_on_top or nrep < ctx.n(25, 300):
+            nrep += 1
+            report_oracle(ctx, kernel, dg, {"kind": "report", "isa": isa, "text": case["text"], "flagdeps": case["flagdeps"], "db": case["db"]},
+                          arch_yaml=case["db"]["arch_yaml"])
         if len(cases) < 2:
             ctx.sample({"kernel": case["text"], "lcd": case["lcd"]})
         cases.append(case)
@@ -215,6 +277,7 @@ def memory_cycles(ctx):
         case["origin"] = "running-sum kernel on " + arch
         memcases.append(case)
         ctx.count()
+        report_oracle(ctx, kernel, dg, dict(rep, kind="report-memory"), arch=arch)
         # construction facts: st = the line with a memory destination, ld = the reload, bump = the pointer bump (if any)
         is_mem = (lambda l: "(" in l) if isa == "x86" else (lambda l: "[" in l)
         mem_lines = [j for j, l in enumerate(lines) if is_mem(l) and not l.startswith("lea")]
@@ -270,6 +333,16 @@ def replay(ctx, obj):
         ctx.count()
         if want != got:
             ctx.violation(obj["key"], obj["what"], r)
+        return
+    if r.get("kind") in ("report", "report-memory"):
+        if r.get("db"):
+            pipe = deps.Pipeline(ctx, r["isa"], r["db"]["isa_yaml"], r["db"]["arch_yaml"])
+            kernel, dg = pipe.analyse(r["text"], r.get("flagdeps", False))
+            report_oracle(ctx, kernel, dg, r, arch_yaml=r["db"]["arch_yaml"])
+        else:
+            pipe = deps.Pipeline(ctx, r["isa"], arch=r["arch"])
+            kernel, dg = pipe.analyse(r["text"], False)
+            report_oracle(ctx, kernel, dg, r, arch=r["arch"])
         return
     if r.get("kind") == "memory":
         pipe = deps.Pipeline(ctx, r["isa"], arch=r["arch"])
